@@ -61,6 +61,8 @@ POOL = [
     ("from", "os", ("path",)),
     ("rel", 1, "", ("name",)),
     ("rel", 1, "", ("handlers",)),
+    ("rel", 2, "subx", ("m",)),
+    ("rel", 2, "subx.m", ("name",)),
 ]
 
 
